@@ -19,6 +19,9 @@ type Env struct {
 	InnerD                           *idl.Struct // element struct with optional fields that have declared defaults
 	TdI32, TdE, TdS, TdL, TdTd, IncT *idl.Typedef
 	TdME, TdLE                       *idl.Typedef // typedef'd containers holding enums
+	// StandardRoots: leave out / keep only the roots whose field 1 has a declared default
+	// (lets a check put them into a program of their own)
+	NoDefaultRoots, OnlyDefaultRoots bool
 }
 
 func fld(id int32, name string, t *idl.Type, req idl.Req, def *idl.Value) *idl.Field {
@@ -196,13 +199,22 @@ func (e *Env) StandardRoots(types []Named) []*Root {
 		{"double", idl.T(idl.Double), idl.VD(2.5)}, {"string", idl.T(idl.String), idl.VS("dflt")}, {"binary", idl.T(idl.Binary), idl.VS("bin")}, {"enum", idl.EnumT(e.E), idl.VE(e.E, e.E.Values[1])},
 		{"list", idl.ListOf(i32), idl.VL(idl.VI(1), idl.VI(2))}, {"map", idl.MapOf(idl.T(idl.String), i32), idl.VM([2]*idl.Value{idl.VS("k"), idl.VI(1)})},
 	}
+	if e.OnlyDefaultRoots {
+		roots = nil
+	}
 	for _, d := range defs {
+		if e.NoDefaultRoots {
+			break
+		}
 		for _, rq := range []idl.Req{idl.ReqOptional, idl.ReqDefault} {
 			s := &idl.Struct{Cat: "struct", Name: fmt.Sprintf("D_%s_%s", d.n, reqNames[rq]), Fields: []*idl.Field{
 				{ID: 1, ExplicitID: true, Name: "f", Type: d.t, Req: rq, Default: d.v}, {ID: 2, ExplicitID: true, Name: "tail", Type: i32}}}
 			e.Main.Add(s)
 			roots = append(roots, &Root{Name: s.Name, S: s, Kernel: &Kernel{S: s, Shape: "default_" + d.n, T: d.t, Req: rq}})
 		}
+	}
+	if e.OnlyDefaultRoots {
+		return roots
 	}
 	wide := &idl.Struct{Cat: "struct", Name: "Wide", Fields: []*idl.Field{
 		{Name: "a", Type: i32}, {Name: "b", Type: idl.T(idl.String), Req: idl.ReqOptional}, {ID: -1, ExplicitID: true, Name: "neg", Type: i32, Req: idl.ReqOptional},
@@ -217,6 +229,16 @@ func (e *Env) StandardRoots(types []Named) []*Root {
 		req9.Fields = append(req9.Fields, &idl.Field{ID: int32(i), ExplicitID: true, Name: fmt.Sprintf("r%d", i), Type: i32, Req: idl.ReqRequired})
 	}
 	e.Main.Add(req9)
+	// 14, 15, 16, 17 and 24 required fields: the required-field bitset ends inside / at the end of a word
+	var manyReq []*Root
+	for _, n := range []int{14, 15, 16, 17, 24} {
+		st := &idl.Struct{Cat: "struct", Name: fmt.Sprintf("Req%d", n)}
+		for i := 1; i <= n; i++ {
+			st.Fields = append(st.Fields, &idl.Field{ID: int32(i), ExplicitID: true, Name: fmt.Sprintf("r%d", i), Type: i32, Req: idl.ReqRequired})
+		}
+		e.Main.Add(st)
+		manyReq = append(manyReq, &Root{Name: st.Name, S: st})
+	}
 	// field ids in every spelling the grammar allows (decimal with leading zeros, hex, octal)
 	spelled := &idl.Struct{Cat: "struct", Name: "SpelledIds", Fields: []*idl.Field{
 		{ID: 10, ExplicitID: true, IDText: "010", Name: "ten", Type: i32}, {ID: 17, ExplicitID: true, IDText: "0017", Name: "seventeen", Type: idl.T(idl.String), Req: idl.ReqOptional},
@@ -224,6 +246,7 @@ func (e *Env) StandardRoots(types []Named) []*Root {
 		{ID: 64, ExplicitID: true, IDText: "0o100", Name: "oct", Type: i32}, {ID: -10, ExplicitID: true, IDText: "-010", Name: "negten", Type: i32, Req: idl.ReqOptional}}}
 	e.Main.Add(spelled)
 	roots = append(roots, &Root{Name: "SpelledIds", S: spelled})
+	roots = append(roots, manyReq...)
 	roots = append(roots, &Root{Name: "Wide", S: wide}, &Root{Name: "Node", S: node}, &Root{Name: "Req9", S: req9}, &Root{Name: "U", S: e.U}, &Root{Name: "X", S: e.X}, &Root{Name: "Inner", S: e.Inner})
 	return roots
 }
